@@ -39,6 +39,19 @@ func (l *Loaded) IsVarIdent(id *ast.Ident) bool {
 	return false
 }
 
+// VarObj: the variable object an identifier denotes (nil for non-variables).
+func (l *Loaded) VarObj(id *ast.Ident) gotypes.Object {
+	for _, info := range l.infos {
+		if o, ok := info.Uses[id]; ok {
+			return o
+		}
+		if o, ok := info.Defs[id]; ok {
+			return o
+		}
+	}
+	return nil
+}
+
 var repoDir = "/repo"
 
 func Load(patterns ...string) (*Loaded, error) {
